@@ -126,7 +126,8 @@ __CPROVER_ensures(((TOKEN >> 4) == 15 && OFF(SRC0) + 1 < OFF(end)) ==> OFF(*lite
 __CPROVER_ensures(((TOKEN >> 4) == 15 && OFF(SRC0) + 1 < OFF(end)) ==> *literal_len == (u32)(15u + 255u * (u32)(OFF(*literal) - OFF(SRC0) - 2) + SRC0[OFF(*literal) - OFF(SRC0) - 1]))
 /* true: literals, offset and match length fit and leave MINCODA bytes */
 __CPROVER_ensures(__CPROVER_return_value ==> (SAME(*src, end) && OFF(*literal) + (long)*literal_len + 2 <= OFF(*src) && OFF(*src) <= OFF(end) - 6))
-__CPROVER_ensures(__CPROVER_return_value ==> *match_dist == ((u32)(*literal)[*literal_len] | ((u32)(*literal)[*literal_len + 1] << 8)))
+#define LIT_AT(i) (SRC0[OFF(*literal) - OFF(SRC0) + (size_t)(i)])          /* byte i of the literal run (indexed from the old src: see the note on `(*literal)[..]` in the report) */
+__CPROVER_ensures(__CPROVER_return_value ==> *match_dist == ((u32)LIT_AT(*literal_len) | ((u32)LIT_AT((size_t)*literal_len + 1) << 8)))
 __CPROVER_ensures((__CPROVER_return_value && (TOKEN & 15) != 15) ==> (*match_len == (u32)(TOKEN & 15) + 4 && OFF(*src) == OFF(*literal) + (long)*literal_len + 2))
 __CPROVER_ensures((__CPROVER_return_value && (TOKEN & 15) == 15) ==> (OFF(*src) >= OFF(*literal) + (long)*literal_len + 3
         && *match_len == (u32)(15u + 255u * (u32)(OFF(*src) - OFF(*literal) - (long)*literal_len - 3) + SRC0[OFF(*src) - OFF(SRC0) - 1] + 4u)))
@@ -328,8 +329,7 @@ void h_read_sequence(void)
     v->src = buf + w_at; v->literal = NULL;
     g_k = nondet_size_t();
     bool r = read_sequence(&v->src, buf + w_n, &v->literal, &v->literal_len, &v->match_len, &v->match_dist);
-    (void)r;
-    CANARY();
+    if (r && v->literal_len >= 15 && v->match_len >= 19) CANARY();     /* vacuity guard on the deepest path: a complete sequence with both length extensions */
 }
 #endif
 
@@ -406,7 +406,7 @@ void h_lz4(void)
     g_phase = 0; g_op = 0; g_nseq = 0;
     int r = lz4_decompress(buf + PAD, w_in_n, out, w_out_n);
     if (r >= 0) __CPROVER_assert(g_phase == 4 && (size_t)r == g_op, "success: the block was decoded up to and including the final literals and the result is the number of bytes the copy program produced");
-    CANARY();
+    if (r > 0 && g_nseq >= 1) CANARY();                                /* vacuity guard on the deepest path: a block with at least one match decoded successfully */
 }
 #endif
 
